@@ -4,6 +4,7 @@ import (
 	"fmt"
 	multierror "github.com/hashicorp/go-multierror"
 	"reflect"
+	"regexp"
 	"strings"
 	"sync"
 
@@ -160,14 +161,25 @@ func tagOf(l Label, upper bool) reflect.StructTag {
 	return reflect.StructTag(fmt.Sprintf(`argmapper:"%s"`, strings.Join(tags, ",")))
 }
 
+var plainName = regexp.MustCompile(`^[a-z][a-z0-9]*$`)
+
 func structOf(ls []Label, upper bool) reflect.Type {
 	sf := []reflect.StructField{{Name: "Struct", Type: structMarker, Anonymous: true}}
 	for i, l := range ls {
-		sf = append(sf, reflect.StructField{
+		f := reflect.StructField{
 			Name: fmt.Sprintf("F%d", i),
 			Type: TypeOf(l.Type),
 			Tag:  tagOf(l, upper),
-		})
+		}
+		if !upper && i%2 == 0 && plainName.MatchString(l.Name) {
+			// the other way to name a value: the field carries the name, the tag only options (or nothing)
+			f.Name = strings.ToUpper(l.Name[:1]) + l.Name[1:]
+			f.Tag = ""
+			if l.Sub != "" {
+				f.Tag = reflect.StructTag(fmt.Sprintf(`argmapper:",subtype=%s"`, l.Sub))
+			}
+		}
+		sf = append(sf, f)
 	}
 	return reflect.StructOf(sf)
 }
